@@ -106,7 +106,7 @@ def rule_b(model, rep):
     purges = True
     for q in ("HtpasswdFile.delete", "HtdigestFile.delete", "HtdigestFile.delete_realm"):
         f2 = model.func(AP, q)
-        if not any(kind in ("remove", "pop", "rebind", "clear") for kind, _ in _mutations(f2, "_source")) and "_source" not in qtext(f2):
+        if not any(kind in ("remove", "pop", "rebind", "clear") for kind, _ in _mutations(f2, "_source")) and not qtext(f2).loose("_source"):
             purges = False
     rep.check(consults_source or purges, R, site("_CommonFile._set_record"), f"if {gt}: self._source.append((_RECORD, key))",
               "a deleted record keeps its slot in _source, so the append must be guarded by a test on _source itself (or deletions must purge _source)",
